@@ -131,6 +131,12 @@ impl View {
                     if from_subj {
                         s.subj_rst = true;
                         s.subj_refused |= *code == 7;
+                        // a stream identifier the subject has answered with RST_STREAM is used up, also when the peer never
+                        // opened it (the reaction to e.g. a self-dependent PRIORITY on an idle stream is unspecified; after
+                        // it neither side can treat the identifier as idle any more)
+                        if !subj_parity(*sid) {
+                            v.max_peer_id = v.max_peer_id.max(*sid);
+                        }
                     } else {
                         s.peer_rst = true;
                     }
@@ -383,10 +389,22 @@ pub fn classify(v: &View, f: &RawFrame, a: &EvAttr) -> Class {
             St::IdleNew | St::IdleOwn => Class::Conn,
             _ => Class::Ok { content: false },
         },
-        Parsed::Settings { ack, .. } => {
+        Parsed::Settings { ack, ref params } => {
             if ack {
                 Class::Unspecified
             } else {
+                // RFC 9113 6.9.2: a change of SETTINGS_INITIAL_WINDOW_SIZE that takes any flow-control window past 2^31-1
+                // is a connection error (the subject's send windows: acknowledged initial size + updates - octets sent)
+                if let Some((_, n)) = params.iter().rev().find(|(id, _)| *id == wf::setting::INITIAL_WINDOW_SIZE) {
+                    let delta = *n as i64 - v.peer_iws;
+                    let overflow = v.streams.iter().any(|(id, sv)| {
+                        let open_for_sending = (sv.subj_hdr || sv.promised_by_subj || sv.peer_hdr) && !sv.subj_eos && !sv.subj_rst && !sv.peer_rst && *id != 0;
+                        open_for_sending && v.peer_iws + sv.peer_wu - sv.subj_flow + delta > 0x7fff_ffff
+                    });
+                    if overflow {
+                        return Class::Conn;
+                    }
+                }
                 Class::Ok { content: false }
             }
         }
@@ -542,6 +560,10 @@ pub struct App {
     pub send_streams: Vec<(u32, h2::SendStream<Bytes>)>,
     pub bodies: Vec<(u32, h2::RecvStream)>,
     pub flag: Option<std::sync::Arc<Flag>>,
+    /// client: the push-promise streams of the requests, the pushed responses still awaited, promises received so far
+    pub push_streams: Vec<(u32, client::PushPromises)>,
+    pub pushed_futs: Vec<(u32, client::PushedResponseFuture)>,
+    pub promises_seen: usize,
 }
 
 impl App {
@@ -555,6 +577,12 @@ impl App {
         }
         for (_, x) in self.bodies {
             safe_drop(panics, "RecvStream", x);
+        }
+        for (_, x) in self.pushed_futs {
+            safe_drop(panics, "PushedResponseFuture", x);
+        }
+        for (_, x) in self.push_streams {
+            safe_drop(panics, "PushPromises", x);
         }
     }
 }
@@ -573,8 +601,9 @@ fn client_request(t: &mut T2, app: &mut App, post: bool) -> Option<u32> {
         sr.send_request(simple_request("/x", post), !post).ok()
     });
     t.panics.extend(panics);
-    let (rf, ss) = r??;
+    let (mut rf, ss) = r??;
     let sid = rf.stream_id().as_u32();
+    app.push_streams.push((sid, rf.push_promises()));
     app.resp_futs.push((sid, rf));
     app.send_streams.push((sid, ss));
     Some(sid)
@@ -958,6 +987,35 @@ fn app_saw_marker(t: &mut T2, app: &mut App) -> Option<String> {
             }
         }
     }
+    // promises, pushed responses and their bodies
+    for (_, pp) in app.push_streams.iter_mut() {
+        for _ in 0..4 {
+            match guarded(&mut panics, "poll_push_promise", || pp.poll_push_promise(&mut cx)) {
+                Some(Poll::Ready(Some(Ok(p)))) => {
+                    let (_req, prf) = p.into_parts();
+                    app.promises_seen += 1;
+                    app.pushed_futs.push((prf.stream_id().as_u32(), prf));
+                }
+                _ => break,
+            }
+        }
+    }
+    let mut k = 0;
+    while k < app.pushed_futs.len() {
+        let sid = app.pushed_futs[k].0;
+        match guarded(&mut panics, "poll pushed response", || std::pin::Pin::new(&mut app.pushed_futs[k].1).poll_fut(&mut cx)) {
+            Some(Poll::Ready(Ok(resp))) => {
+                let (_, f) = app.pushed_futs.remove(k);
+                safe_drop(&mut panics, "PushedResponseFuture", f);
+                app.bodies.push((sid, resp.into_body()));
+            }
+            Some(Poll::Ready(Err(_))) => {
+                let (_, f) = app.pushed_futs.remove(k);
+                safe_drop(&mut panics, "PushedResponseFuture", f);
+            }
+            _ => k += 1,
+        }
+    }
     for (sid, rf) in app.resp_futs.iter_mut() {
         if app.bodies.iter().any(|(s, _)| s == sid) {
             continue;
@@ -1041,10 +1099,45 @@ pub fn followup(t: &mut T2, app: &mut App) -> Option<String> {
 }
 
 pub fn run_pair(s: &StateSpec, ev_label: &str, verbose: bool) -> Option<PairResult> {
+    run_chain(s, &[], ev_label, verbose)
+}
+
+/// `prefix` events are injected first (each judged on its own in the run where it is the last event); they only serve to
+/// reach further states. The chain is abandoned (None) when a prefix event ends the connection or draws a GOAWAY.
+pub fn run_chain(s: &StateSpec, prefix: &[String], ev_label: &str, verbose: bool) -> Option<PairResult> {
     let cfg = cfg_for(s);
     let mut t = T2::new(&cfg, vec![]);
     let mut app = enter(&mut t, s);
     t.catch_up();
+    for pl in prefix {
+        let v0 = View::from_wire(&t);
+        let evs = events_for(&v0, s);
+        let pe = evs.iter().find(|e| &e.label == pl).cloned();
+        let ok = match &pe {
+            Some(pe) => {
+                for f in &pe.frames {
+                    t.peer_send(f);
+                }
+                let goaways_before = t.subject_frames().iter().filter(|f| f.raw.ty == wf::ty::GOAWAY).count();
+                let q = t.drive(200);
+                t.catch_up();
+                let goaways_after = t.subject_frames().iter().filter(|f| f.raw.ty == wf::ty::GOAWAY).count();
+                q && t.conn_result.is_none() && goaways_after == goaways_before && t.panics.is_empty()
+            }
+            None => false,
+        };
+        let _ = app_saw_marker(&mut t, &mut app);
+        if verbose {
+            println!("prefix event {} -> {}", pl, if ok { "connection continues" } else { "chain ends here" });
+        }
+        if !ok {
+            let mut p = std::mem::take(&mut t.panics);
+            app.release(&mut p);
+            t.panics = p;
+            let _ = t.finish();
+            return None;
+        }
+    }
     let view = View::from_wire(&t);
     let evs = events_for(&view, s);
     let ev = evs.iter().find(|e| e.label == ev_label)?.clone();
@@ -1052,6 +1145,7 @@ pub fn run_pair(s: &StateSpec, ev_label: &str, verbose: bool) -> Option<PairResu
     let frames_before = t.subject_frames().len();
     let accepted_before = t.accepted.len();
     let _ = app_saw_marker(&mut t, &mut app); // drain what the state itself delivered
+    let promises_before = app.promises_seen;
     let mut class = Class::Ok { content: false };
     let mut v2 = view.clone();
     for f in &ev.frames {
@@ -1080,7 +1174,7 @@ pub fn run_pair(s: &StateSpec, ev_label: &str, verbose: bool) -> Option<PairResu
     let goaway = new_frames.iter().find_map(|f| if let Ok(Parsed::GoAway { code, last, .. }) = &f.parsed { Some((*last, *code)) } else { None });
     let rsts: Vec<(u32, u32)> = new_frames.iter().filter_map(|f| if let Ok(Parsed::RstStream { sid, code }) = &f.parsed { Some((*sid, *code)) } else { None }).collect();
     let marker = app_saw_marker(&mut t, &mut app);
-    let new_accepts = t.accepted.len() - accepted_before;
+    let new_accepts = t.accepted.len() - accepted_before + (app.promises_seen - promises_before);
     if verbose {
         println!("state {} + event {} => class {:?}", s.name, ev.label, class);
         println!("--- wire transcript\n{}", t.mon.transcript());
@@ -1093,7 +1187,7 @@ pub fn run_pair(s: &StateSpec, ev_label: &str, verbose: bool) -> Option<PairResu
         Class::Ok { .. } => "ok",
         Class::Unspecified => "unspecified",
     };
-    let key = format!("{}+{}", s.name, ev.label);
+    let key = if prefix.is_empty() { format!("{}+{}", s.name, ev.label) } else { format!("{}+{}+{}", s.name, prefix.join("+"), ev.label) };
     if !quiesced {
         vios.push(("C09.no-quiescence".to_string(), key.clone(), "the connection task kept waking itself".to_string()));
     }
@@ -1188,6 +1282,49 @@ pub fn run_pair(s: &StateSpec, ev_label: &str, verbose: bool) -> Option<PairResu
     Some(PairResult { vios, class: cname.to_string(), transitions, obs })
 }
 
+/// labels of the events that exist after `prefix` (None: the prefix ends the connection)
+pub fn labels_after(s: &StateSpec, prefix: &[String]) -> Option<Vec<String>> {
+    let cfg = cfg_for(s);
+    let mut t = T2::new(&cfg, vec![]);
+    let mut app = enter(&mut t, s);
+    t.catch_up();
+    let mut alive = true;
+    for pl in prefix {
+        let v0 = View::from_wire(&t);
+        let evs = events_for(&v0, s);
+        match evs.iter().find(|e| &e.label == pl) {
+            Some(pe) => {
+                for f in &pe.frames {
+                    t.peer_send(f);
+                }
+                let goaways_before = t.subject_frames().iter().filter(|f| f.raw.ty == wf::ty::GOAWAY).count();
+                let q = t.drive(200);
+                t.catch_up();
+                let goaways_after = t.subject_frames().iter().filter(|f| f.raw.ty == wf::ty::GOAWAY).count();
+                if !(q && t.conn_result.is_none() && goaways_after == goaways_before && t.panics.is_empty()) {
+                    alive = false;
+                }
+            }
+            None => alive = false,
+        }
+        let _ = app_saw_marker(&mut t, &mut app);
+        if !alive {
+            break;
+        }
+    }
+    let out = if alive {
+        let v = View::from_wire(&t);
+        Some(events_for(&v, s).into_iter().map(|e| e.label).collect())
+    } else {
+        None
+    };
+    let mut p = std::mem::take(&mut t.panics);
+    app.release(&mut p);
+    t.panics = p;
+    let _ = t.finish();
+    out
+}
+
 pub fn all_pairs() -> Vec<(StateSpec, String)> {
     let mut pairs = vec![];
     for s in states() {
@@ -1215,9 +1352,15 @@ pub fn run(ctx: &Ctx) -> Outcome {
     let classes: Mutex<BTreeMap<String, u64>> = Mutex::new(BTreeMap::new());
     let transitions = AtomicU64::new(0);
     let obs = Mutex::new(std::collections::HashSet::new());
+    let usable_prefix: Mutex<Vec<(StateSpec, Vec<String>)>> = Mutex::new(vec![]);
     par_for(pairs.len(), |i| {
         let (s, label) = &pairs[i];
         if let Some(r) = run_pair(s, label, false) {
+            // only events with a defined outcome (legal, or a stream error answered on that stream) lead to states in
+            // which the RFC still says what must happen next
+            if r.class == "ok" || r.class == "stream" {
+                usable_prefix.lock().unwrap().push((s.clone(), vec![label.clone()]));
+            }
             transitions.fetch_add(r.transitions, Ordering::Relaxed);
             *classes.lock().unwrap().entry(r.class.clone()).or_insert(0) += 1;
             obs.lock().unwrap().insert((r.obs, r.class.clone()));
@@ -1227,16 +1370,67 @@ pub fn run(ctx: &Ctx) -> Outcome {
             }
         }
     });
-    let _ = ctx;
+    // chains: every event again after every event that leaves the connection in service (quick: one prefix event,
+    // thorough: two), i.e. the state catalogue is extended by everything one / two further peer events can reach
+    let max_prefix = if ctx.tier.is_quick() { 2 } else { 3 };
+    let chains_run = AtomicU64::new(0);
+    let chains_abandoned = AtomicU64::new(0);
+    let cut = std::sync::atomic::AtomicBool::new(false);
+    let mut chain_levels = vec![];
+    let mut frontier: Vec<(StateSpec, Vec<String>)> = usable_prefix.into_inner().unwrap();
+    frontier.sort_by(|a, b| (a.0.name.clone(), a.1.clone()).cmp(&(b.0.name.clone(), b.1.clone())));
+    for level in 1..=max_prefix {
+        let next: Mutex<Vec<(StateSpec, Vec<String>)>> = Mutex::new(vec![]);
+        let before = chains_run.load(Ordering::Relaxed);
+        par_for(frontier.len(), |i| {
+            if ctx.over_budget() {
+                cut.store(true, Ordering::Relaxed);
+                return;
+            }
+            let (s, prefix) = &frontier[i];
+            let Some(labels) = labels_after(s, prefix) else {
+                chains_abandoned.fetch_add(1, Ordering::Relaxed);
+                return;
+            };
+            for l in &labels {
+                let mut last_class = String::new();
+                if let Some(r) = run_chain(s, prefix, l, false) {
+                    last_class = r.class.clone();
+                    chains_run.fetch_add(1, Ordering::Relaxed);
+                    transitions.fetch_add(r.transitions, Ordering::Relaxed);
+                    *classes.lock().unwrap().entry(r.class.clone()).or_insert(0) += 1;
+                    obs.lock().unwrap().insert((r.obs, r.class.clone()));
+                    if !r.vios.is_empty() {
+                        let mut vs = vios.lock().unwrap();
+                        for (rule, sig, what) in r.vios {
+                            vs.add(Violation { rule, signature: sig, what, replay: json!({"harness": "c09.pair", "state": s.name, "prefix": prefix, "event": l}) });
+                        }
+                    }
+                }
+                if level < max_prefix && (last_class == "ok" || last_class == "stream") {
+                    let mut p2 = prefix.clone();
+                    p2.push(l.clone());
+                    next.lock().unwrap().push((s.clone(), p2));
+                }
+            }
+        });
+        chain_levels.push(json!({"prefix_events": level, "chains": chains_run.load(Ordering::Relaxed) - before, "complete": !cut.load(Ordering::Relaxed)}));
+        if cut.load(Ordering::Relaxed) {
+            break;
+        }
+        frontier = next.into_inner().unwrap();
+    }
     let classes = classes.into_inner().unwrap();
+    let total = pairs.len() as u64 + chains_run.load(Ordering::Relaxed);
     out.harness("state-x-event", json!({"states": states().len(), "pairs": pairs.len(), "by_reference_class": classes}));
-    out.set("evaluations", json!(pairs.len()));
-    out.set("states", json!(pairs.len()));
+    out.harness("state-x-event-chains", json!({"levels": chain_levels, "prefixes_that_end_the_connection": chains_abandoned.load(Ordering::Relaxed)}));
+    out.set("evaluations", json!(total));
+    out.set("states", json!(total));
     out.set("transitions", json!(transitions.load(Ordering::Relaxed)));
-    out.set("traces_validated_against_impl", json!(pairs.len()));
+    out.set("traces_validated_against_impl", json!(total));
     out.set("distinct_nontrivial", json!(obs.lock().unwrap().len()));
-    out.set("exhaustive", json!(true));
-    out.set("rule", json!("X3 on T2: every (state, event) pair of the catalogues: the real endpoint (either role) is brought into each of 32 stream / connection states by a legal history, then one event (1-4 raw frames built with the independent serializer: every frame type on the primary stream, an idle peer stream, an idle own stream, stream 0, malformed sizes, flow-control overflows, header-block interleavings, push promises ...) is injected; the RFC 9113 reference classification (connection error / stream error / legal / unspecified), computed from the wire history alone, decides what must be observed: GOAWAY with a code, RST_STREAM or GOAWAY, or no penalty + content delivered + a follow-up exchange completes; nothing of an illegal frame may surface. distinct_nontrivial = distinct (reaction, class) observations"));
+    out.set("exhaustive", json!(!cut.load(Ordering::Relaxed)));
+    out.set("rule", json!("X3 on T2: every (state, event) pair of the catalogues, and every event again after every one and every two (thorough: three, as far as the budget allows; the evidence says which level completed) preceding events that are legal or plain stream errors and leave the connection in service: the real endpoint (either role) is brought into each of 32 stream / connection states by a legal history, then one event (1-4 raw frames built with the independent serializer: every frame type on the primary stream, an idle peer stream, an idle own stream, stream 0, malformed sizes, flow-control overflows, header-block interleavings, push promises ...) is injected; the RFC 9113 reference classification (connection error / stream error / legal / unspecified), computed from the wire history alone, decides what must be observed: GOAWAY with a code, RST_STREAM or GOAWAY, or no penalty + content delivered + a follow-up exchange completes; nothing of an illegal frame may surface. distinct_nontrivial = distinct (reaction, class) observations"));
     out.add_sample(json!({"harness": "c09.pair", "state": "s-open", "event": "DATA(prim)"}));
     out.add_sample(json!({"harness": "c09.pair", "state": "c-request-parked", "event": "PUSH_PROMISE(prim->even)"}));
     out.guard_nonzero("pairs classified conn", classes.get("conn").copied().unwrap_or(0));
@@ -1255,7 +1449,8 @@ pub fn replay(v: &Value) -> bool {
         println!("unknown state {}", sname);
         return false;
     };
-    match run_pair(&s, label, true) {
+    let prefix: Vec<String> = v["prefix"].as_array().map(|a| a.iter().filter_map(|x| x.as_str().map(|s| s.to_string())).collect()).unwrap_or_default();
+    match run_chain(&s, &prefix, label, true) {
         Some(r) => !r.vios.is_empty(),
         None => {
             println!("event {} does not exist in state {}", label, sname);
